@@ -688,6 +688,21 @@ pub fn eval_unit_name(
     }
 }
 
+/// Whether a temperature scale operator occurs anywhere in the expression.
+fn uses_degree(expr: &Expr) -> bool {
+    match *expr {
+        Expr::UnaryOp(ref unaryop) => {
+            matches!(unaryop.op, UnaryOpType::Degree(_)) || uses_degree(&unaryop.expr)
+        }
+        Expr::BinOp(ref binop) => uses_degree(&binop.left) || uses_degree(&binop.right),
+        Expr::Mul { ref exprs } | Expr::Call { args: ref exprs, .. } => {
+            exprs.iter().any(uses_degree)
+        }
+        Expr::Of { ref expr, .. } => uses_degree(expr),
+        _ => false,
+    }
+}
+
 fn conformance_err(ctx: &Context, top: &Number, bottom: &Number) -> ConformanceError {
     fn multiply_or_divide(recip: bool) -> &'static str {
         if recip {
@@ -969,6 +984,15 @@ pub(crate) fn eval_query(ctx: &Context, expr: &Query) -> Result<QueryReply, Quer
             Ok(QueryReply::Conversion(Box::new(ConversionReply {
                 value: parts,
             })))
+        }
+        // A temperature scale is only a conversion target on its own.
+        // Most places in a compound target are refused while its units
+        // are named; an exponent, the right of `=` and the operand of
+        // `of` are not looked at there.
+        Query::Convert(_, Conversion::Expr(ref bottom), _, _) if uses_degree(bottom) => {
+            Err(QueryError::generic(
+                "Temperature conversions must not be compound units".to_string(),
+            ))
         }
         Query::Convert(ref top, Conversion::Expr(ref bottom), base, digits) => match (
             eval_expr(ctx, top)?,
